@@ -17,9 +17,9 @@ Two readings of a constraint live here:
   planner (`pickSource`), the candidate enumerations (`candidates`), the callback of `Query`, the
   post-sort and the truncation (`query`).  Defects of the code are modelled as they are.
 
-Not modelled: `At` (always "now"), `Continue`/`Around` (C09), location / EXIF / image / media
+Not modelled: `Continue`/`Around` (C09), location / EXIF / image / media
 constraints, `ValueMatchesFloat`, `Regexp`, `CaseInsensitive` on non-ASCII strings, `InLast`, `IsImage`, claims dated in
-the future, deleted claims, several signers, the expression parser.
+the future, deleted claims, more than two signers, the expression parser.
 -/
 namespace Pk.Search
 open Pk
@@ -160,6 +160,8 @@ deriving DecidableEq, Repr
 
 /-- the leaf fields of `PermanodeConstraint` -/
 structure PFlat where
+  /-- `At` as unix seconds; `0`: the zero time, i.e. now -/
+  atT : Time
   attr : Str
   skipHidden : Bool
   numValue : Option IntC
@@ -246,6 +248,8 @@ structure Claim where
   attr : Str
   value : Str
   date : Time
+  /-- signed by someone other than the owner of the search handler -/
+  other : Bool := false
 deriving DecidableEq, Repr
 
 /-- camtypes.FileInfo of a file or directory (`time = 0`: nil) -/
@@ -297,12 +301,21 @@ def applyClaim (vals : List Str) (c : Claim) : List Str :=
   | .del => if c.value.isEmpty then [] else vals.filter (fun v => v != c.value)
   | .delete => vals
 
-/-- Corpus.AppendPermanodeAttrValues(nil, pn, attr, now, owner): the current values of attr -/
-def World.attrVals (w : World) (pn : Ref) (attr : Str) : List Str :=
-  (w.claims.filter (fun c => c.pn == pn && c.attr == attr)).foldl applyClaim []
+/-- a claim counts at time `at` (`0`: now; the worlds have no claims dated in the future):
+`!cl.Date.After(at)` -/
+def inEffect (atT : Time) (c : Claim) : Bool := atT == 0 || decide (c.date ≤ atT)
+
+/-- Corpus.AppendPermanodeAttrValues(nil, pn, attr, at, owner): the values of attr at time `at`
+(`0`: now), as the owner's claims make them -/
+def World.attrVals (w : World) (pn : Ref) (attr : Str) (atT : Time) : List Str :=
+  (w.claims.filter (fun c => c.pn == pn && c.attr == attr && !c.other && inEffect atT c)).foldl applyClaim []
+
+/-- the same over the claims of all signers (`PermanodeMeta.attr`) -/
+def World.attrValsAll (w : World) (pn : Ref) (attr : Str) (atT : Time) : List Str :=
+  (w.claims.filter (fun c => c.pn == pn && c.attr == attr && inEffect atT c)).foldl applyClaim []
 
 /-- Corpus.PermanodeAttrValue: the first value or "" -/
-def World.attrVal (w : World) (pn : Ref) (attr : Str) : Str := (w.attrVals pn attr).headD []
+def World.attrVal (w : World) (pn : Ref) (attr : Str) (atT : Time) : Str := (w.attrVals pn attr atT).headD []
 
 /-- `pn ∈ Corpus.permanodes`: some claim about it was received -/
 def World.hasClaims (w : World) (pn : Ref) : Bool := w.claims.any (fun c => c.pn == pn)
@@ -319,8 +332,10 @@ def World.anyTime (w : World) (pn : Ref) : Time :=
 
 def World.isDeleted (w : World) (pn : Ref) : Bool := w.deleted.contains pn
 
-/-- Corpus.PermanodeHasAttrValue (corpus.go:1522) at "now" -/
-def World.hasAttrValue (w : World) (pn : Ref) (attr val : Str) : Bool := (w.attrVals pn attr).contains val
+/-- Corpus.PermanodeHasAttrValue (corpus.go:1522): asked without a signer, it looks at the claims
+of everybody -/
+def World.hasAttrValue (w : World) (pn : Ref) (atT : Time) (attr val : Str) : Bool :=
+  (w.attrValsAll pn attr atT).contains val
 
 /-- Corpus.GetFileInfo -/
 def World.fileInfo (w : World) (r : Ref) : Option FileInfo := w.files.find? (fun f => f.ref == r)
@@ -345,15 +360,15 @@ def RFlat.matchesAttr (r : RFlat) (attr : Str) : Bool :=
 section Spec
 variable (t : Pk.Ref.Tbl) (w : World)
 
-/-- the nodes a relation reaches from `pn` now: for "child" the current values of the edge
-attributes that are refs, for "parent" the permanodes that currently have `pn` as such a value -/
-def related (r : RFlat) (pn : Ref) : List Ref :=
+/-- the nodes a relation reaches from `pn` at time `at`: for "child" the values of the edge
+attributes that are refs, for "parent" the permanodes that have `pn` as such a value -/
+def related (r : RFlat) (pn : Ref) (atT : Time) : List Ref :=
   if r.relation == sChild then
-    ((w.claims.filter (fun c => c.pn == pn && r.matchesAttr c.attr && refOK t c.value &&
-        w.hasAttrValue pn c.attr c.value)).map (·.value)).eraseDups
+    ((w.claims.filter (fun c => c.pn == pn && inEffect atT c && r.matchesAttr c.attr && refOK t c.value &&
+        w.hasAttrValue pn atT c.attr c.value)).map (·.value)).eraseDups
   else if r.relation == sParent then
-    ((w.claims.filter (fun c => c.value == pn && refOK t c.value && r.matchesAttr c.attr &&
-        w.hasAttrValue c.pn c.attr c.value)).map (·.pn)).eraseDups
+    ((w.claims.filter (fun c => c.value == pn && refOK t c.value && inEffect atT c && r.matchesAttr c.attr &&
+        w.hasAttrValue c.pn atT c.attr c.value)).map (·.pn)).eraseDups
   else []
 
 /-- some blob below directory `dir` (children, children of child directories, …) satisfies `p` -/
@@ -404,7 +419,7 @@ def matchesP : Perm → BlobMeta → Bool
   | .mk p inSet rel relAny relAll, bm =>
     bm.camliType == sPermanode &&
     (p.attr.isEmpty ||
-      (let vals := w.attrVals bm.ref p.attr
+      (let vals := w.attrVals bm.ref p.attr p.atT
        optInt p.numValue vals.length &&
        (!p.hasValueConstraint inSet.isNil ||
          (let good := vals.filter (fun v => p.valueOK v &&
@@ -412,13 +427,13 @@ def matchesP : Perm → BlobMeta → Bool
               | none => false
               | some vb => matchesC inSet vb)))
           good.length != 0 && (!p.valueAll || good.length == vals.length))))) &&
-    (!p.skipHidden || (w.attrVal bm.ref sCamliDefVis != sHide && w.attrVal bm.ref sCamliNodeType != sVenue)) &&
+    (!p.skipHidden || (w.attrVal bm.ref sCamliDefVis p.atT != sHide && w.attrVal bm.ref sCamliNodeType p.atT != sVenue)) &&
     optTime p.modTime (w.modTime bm.ref) &&
     optTime p.time (w.anyTime bm.ref) &&
     (match rel with
      | none => true
      | some r =>
-       let rs := related t w r bm.ref
+       let rs := related t w r bm.ref p.atT
        if !relAny.isNil then
          rs.any (fun x => match w.getBlob x with
            | none => false
@@ -491,6 +506,52 @@ def St.setVals (s : St) (vals : List Str) : St × (Nat × Nat) :=
 
 /-- `vals[i]` of a view -/
 def St.read (s : St) (view : Nat × Nat) (i : Nat) : Str := (s.arrs.getD view.1 []).getD i []
+
+/-- `dst` while AppendPermanodeAttrValues folds claims into it (corpus.go:1349-1376): the array it
+lives in and its length -/
+structure Dst where
+  id : Nat
+  len : Nat
+
+def St.arr (s : St) (id : Nat) : List Str := s.arrs.getD id []
+
+/-- `dst = append(dst, v)`: in place while there is room, else a new array of twice the capacity
+(one element: capacity 1) with a copy of dst -/
+def St.push (s : St) (d : Dst) (v : Str) : St × Dst :=
+  let a := s.arr d.id
+  if d.len < a.length then (⟨s.arrs.set d.id (a.set d.len v), s.cur⟩, ⟨d.id, d.len + 1⟩)
+  else
+    let newcap := if a.length == 0 then 1 else 2 * a.length
+    (⟨s.arrs ++ [a.take d.len ++ [v] ++ List.replicate (newcap - d.len - 1) []], s.cur⟩, ⟨s.arrs.length, d.len + 1⟩)
+
+/-- the loop that deletes one value from dst in place (corpus.go:1360-1367): each hit moves the
+rest of dst one to the left (the old last element stays behind it) -/
+def delLoop (val : Str) : Nat → Nat → Nat → List Str → List Str × Nat
+  | 0, _, len, a => (a, len)
+  | fuel + 1, i, len, a =>
+    if i ≥ len then (a, len)
+    else if a.getD i [] == val then
+      delLoop val fuel i (len - 1) (a.take i ++ (a.drop (i + 1)).take (len - i - 1) ++ a.drop (len - 1))
+    else delLoop val fuel (i + 1) len a
+
+/-- one claim of the fold of AppendPermanodeAttrValues, on the scratch array -/
+def St.foldClaim (sd : St × Dst) (c : Claim) : St × Dst :=
+  let (s, d) := sd
+  match c.kind with
+  | .set => s.push ⟨d.id, 0⟩ c.value
+  | .add => s.push d c.value
+  | .del =>
+    if c.value.isEmpty then (s, ⟨d.id, 0⟩)
+    else
+      let (a, len) := delLoop c.value (2 * d.len + 1) 0 d.len (s.arr d.id)
+      (⟨s.arrs.set d.id a, s.cur⟩, ⟨d.id, len⟩)
+  | .delete => (s, d)
+
+/-- `s.ss = corpus.AppendPermanodeAttrValues(s.ss[:0], …)` when the attribute cache is not valid for
+the time asked (claims after it exist): the claims are folded into `s.ss[:0]` one by one -/
+def St.foldVals (s : St) (cls : List Claim) : St × (Nat × Nat) :=
+  let (s1, d) := cls.foldl St.foldClaim (s, ⟨s.cur, 0⟩)
+  (⟨s1.arrs, d.id⟩, (d.id, d.len))
 
 inductive Err where
   /-- `Invalid SearchQuery` -/
@@ -576,15 +637,15 @@ def relTarget (t : Pk.Ref.Tbl) (child : Bool) (cl : Claim) : Option Ref :=
 /-- RelationConstraint.match's callback over the claims `foreachClaim` yields (query.go:887-933);
 `child = true`: relation "child" (claims of pn, related node = the value), else "parent" (claims
 whose value is pn, related node = the claim's permanode) -/
-def relLoop (t : Pk.Ref.Tbl) (w : World) (r : RFlat) (child isAny : Bool) (m : BlobMeta → St → R) :
+def relLoop (t : Pk.Ref.Tbl) (w : World) (r : RFlat) (atT : Time) (child isAny : Bool) (m : BlobMeta → St → R) :
     List Claim → RelAcc → St → Except Err (RelAcc × St)
   | [], acc, st => .ok (acc, st)
   | cl :: cls, acc, st =>
     match (if r.matchesAttr cl.attr then relTarget t child cl else none) with
-    | none => relLoop t w r child isAny m cls acc st
+    | none => relLoop t w r atT child isAny m cls acc st
     | some rel =>
-      if acc.checked.contains rel || !w.hasAttrValue cl.pn cl.attr cl.value then
-        relLoop t w r child isAny m cls acc st
+      if acc.checked.contains rel || !w.hasAttrValue cl.pn atT cl.attr cl.value then
+        relLoop t w r atT child isAny m cls acc st
       else
       match w.getBlob rel with
       | none => .error .relNotExist
@@ -593,19 +654,20 @@ def relLoop (t : Pk.Ref.Tbl) (w : World) (r : RFlat) (child isAny : Bool) (m : B
         | .error e => .error e
         | .ok (true, st1) =>
           if isAny then .ok ({ acc with anyGood := true }, st1)
-          else relLoop t w r child isAny m cls { acc with anyGood := true, checked := rel :: acc.checked } st1
+          else relLoop t w r atT child isAny m cls { acc with anyGood := true, checked := rel :: acc.checked } st1
         | .ok (false, st1) =>
           if !isAny then .ok ({ acc with anyBad := true }, st1)
-          else relLoop t w r child isAny m cls { acc with anyBad := true, checked := rel :: acc.checked } st1
+          else relLoop t w r atT child isAny m cls { acc with anyBad := true, checked := rel :: acc.checked } st1
 
 /-- RelationConstraint.match (query.go:854) -/
-def relMatch (t : Pk.Ref.Tbl) (w : World) (r : RFlat) (isAny : Bool) (m : BlobMeta → St → R)
+def relMatch (t : Pk.Ref.Tbl) (w : World) (r : RFlat) (atT : Time) (isAny : Bool) (m : BlobMeta → St → R)
     (pn : Ref) (st : St) : R :=
   let child := r.relation == sChild
-  -- ForeachClaim: pm.Claims; ForeachClaimBack: claimBack[pn] (claims whose value parses to pn)
-  let cls := if child then w.claims.filter (fun c => c.pn == pn)
-             else w.claims.filter (fun c => c.value == pn && refOK t c.value)
-  match relLoop t w r child isAny m cls ⟨false, false, []⟩ st with
+  -- ForeachClaim: pm.Claims; ForeachClaimBack: claimBack[pn] (claims whose value parses to pn);
+  -- both skip the claims dated after `at`
+  let cls := if child then w.claims.filter (fun c => c.pn == pn && inEffect atT c)
+             else w.claims.filter (fun c => c.value == pn && refOK t c.value && inEffect atT c)
+  match relLoop t w r atT child isAny m cls ⟨false, false, []⟩ st with
   | .error e => .error e
   | .ok (acc, st1) => if isAny then .ok (acc.anyGood, st1) else .ok (acc.anyGood && !acc.anyBad, st1)
 
@@ -666,6 +728,13 @@ def ccMatcher (op : Op) (f : Flat) (flNil drNil isFOD : Bool) (mF mD mA mB : Blo
     else if op != .none then logical op (mA cb) (mB cb) s
     else .ok (false, s))
 
+/-- `s.ss = corpus.AppendPermanodeAttrValues(s.ss[:0], pn, attr, at, owner)` (query.go:1733): from
+the attribute cache when no claim of the permanode is dated after `at` (valuesAtSigner,
+corpus.go:282), else by folding the owner's claims up to `at`. Returns the view `vals = s.ss`. -/
+def fetchVals (w : World) (st : St) (pn : Ref) (attr : Str) (atT : Time) : St × (Nat × Nat) :=
+  if atT == 0 || decide (w.modTime pn ≤ atT) then st.setVals (w.attrVals pn attr atT)
+  else st.foldVals (w.claims.filter (fun c => c.pn == pn && c.attr == attr && !c.other && inEffect atT c))
+
 section Impl
 variable (t : Pk.Ref.Tbl) (w : World)
 
@@ -693,7 +762,7 @@ def matchP : Perm → BlobMeta → St → R
     let r1 : R :=
       if p.attr.isEmpty then .ok (true, st) else
       -- s.ss = AppendPermanodeAttrValues(s.ss[:0], …); vals = s.ss
-      let (st0, view) := st.setVals (w.attrVals bm.ref p.attr)
+      let (st0, view) := fetchVals w st bm.ref p.attr p.atT
       -- permanodeMatchesAttrVals
       if !optInt p.numValue view.2 then .ok (false, st0) else
       if !p.hasValueConstraint inSet.isNil then .ok (true, st0) else
@@ -712,15 +781,15 @@ def matchP : Perm → BlobMeta → St → R
         else if p.valueAll then .ok (nmatch == view.2, st1)
         else .ok (true, st1)
     andThen r1 (fun st1 =>
-      if p.skipHidden && (w.attrVal bm.ref sCamliDefVis == sHide || w.attrVal bm.ref sCamliNodeType == sVenue)
+      if p.skipHidden && (w.attrVal bm.ref sCamliDefVis p.atT == sHide || w.attrVal bm.ref sCamliNodeType p.atT == sVenue)
       then .ok (false, st1) else
       if !optTime p.modTime (w.modTime bm.ref) then .ok (false, st1) else
       if !optTime p.time (w.anyTime bm.ref) then .ok (false, st1) else
       match rel with
       | none => .ok (true, st1)
       | some r =>
-        if !relAny.isNil then relMatch t w r true (fun b s => matchC relAny b s) bm.ref st1
-        else relMatch t w r false (fun b s => matchC relAll b s) bm.ref st1)
+        if !relAny.isNil then relMatch t w r p.atT true (fun b s => matchC relAny b s) bm.ref st1
+        else relMatch t w r p.atT false (fun b s => matchC relAll b s) bm.ref st1)
 /-- FileConstraint.blobMatches (query.go:1910) -/
 def matchF : FileC → BlobMeta → St → R
   | .nil, _, _ => .error .nilDeref
